@@ -24,6 +24,13 @@ Definition node_id (n : node) : option nat :=
 Definition node_cls (n : node) : option nat :=
   match n with NV _ => None | NL _ c _ | ND _ c _ => Some c end.
 
+Fixpoint node_ids (n : node) : list nat :=
+  match n with
+  | NV _ => []
+  | NL id _ l => id :: flat_map node_ids l
+  | ND id _ d => id :: flat_map (fun kn : key * node => node_ids (snd kn)) d
+  end.
+
 (* state-passing combinators (fresh-id supply) with the recursive function as a parameter *)
 Section MapSt.
   Context {A B S : Type}.
